@@ -36,15 +36,21 @@ Sig(signer, what) == [t |-> "sig", by |-> signer, over |-> what]
 SigOK(s, cert, what) == s.by = cert /\ s.over = what
 Mac(pw, what) == [t |-> "mac", pw |-> pw, over |-> what]
 
+\* A certificate is named by issuer AND serial number; the holders are certified so that neither alone identifies one
+Issuer == [a |-> "CA1", b |-> "CA1", c |-> "CA2", x |-> "CA2"]
+Serial == [a |-> 1, b |-> 2, c |-> 1, x |-> 2]
+Ias(h) == <<Issuer[h], Serial[h]>>
+ASSUME \A g, h \in Holders : Ias(g) = Ias(h) => g = h
+
 \* ---- objects ----
 Envelope(kind, alg, mode, recips) ==
   [t |-> "env", kind |-> kind, alg |-> alg, mode |-> mode,
-   infos |-> [i \in 1..Len(recips) |-> [ias |-> recips[i], key |-> Wrap("cek", recips[i], kind, mode)]],
+   infos |-> [i \in 1..Len(recips) |-> [ias |-> Ias(recips[i]), key |-> Wrap("cek", recips[i], kind, mode)]],
    body |-> [cek |-> "cek", m |-> "content", intact |-> TRUE]]
 
 \* the recipient opens with certificate of holder c and private key of holder k through the API for apikind
 Open(e, c, k, apikind, usemode) ==
-  LET idx == {i \in DOMAIN e.infos : e.infos[i].ias = c} IN
+  LET idx == {i \in DOMAIN e.infos : e.infos[i].ias = Ias(c)} IN
   IF idx = {} THEN Err
   ELSE LET i == CHOOSE j \in idx : \A j2 \in idx : j <= j2
            cek == Unwrap(e.infos[i].key, k, apikind, usemode)
@@ -70,7 +76,7 @@ Decode(b, pw) == IF b.mac.pw = pw /\ b.mac.over = <<b.key, b.certs>> /\ b.pw = p
 \* ---- the adversary: one change of one semantic field ----
 EnvTampers == {"none", "body", "wrapped_key", "drop_recipient", "reorder"}
 SigTampers == {"none", "content", "digest_attr", "other_attr", "signature", "resign_other_key", "swap_cert"}
-P12Tampers == {"none", "byte"}
+P12Tampers == {"none", "byte", "strip_mac"}      \* strip_mac: the MAC is removed; what it protected can then be changed at will
 
 VARIABLES obj, make, tamper, use, result, pc
 vars == <<obj, make, tamper, use, result, pc>>
@@ -106,7 +112,9 @@ TamperSig(t) ==
     [] t = "resign_other_key" -> [obj EXCEPT !.sig = Sig(OtherHolder(obj.cert), obj.sig.over)]
     \* ... or puts another holder's certificate under the signer's name
     [] t = "swap_cert" -> [obj EXCEPT !.cert = OtherHolder(obj.cert)]
-TamperP12(t) == IF t = "none" THEN obj ELSE [obj EXCEPT !.mac.over = <<"other bytes">>]
+TamperP12(t) == CASE t = "none" -> obj
+                  [] t = "byte" -> [obj EXCEPT !.mac.over = <<"other bytes">>]
+                  [] t = "strip_mac" -> [obj EXCEPT !.mac.pw = "no mac"]
 
 Tamper == /\ pc = "tamper"
           /\ \E t \in (CASE obj.t = "env" -> EnvTampers [] obj.t = "signed" -> SigTampers [] obj.t = "p12" -> P12Tampers) :
@@ -125,8 +133,16 @@ UseSigned == \E supplied \in {"content", "changed"} :
             /\ (~obj.detached => supplied = obj.content)          \* attached: the verifier uses what is inside
             /\ use' = [supplied |-> supplied]
             /\ result' = IF Verify(obj, supplied) THEN "verified" ELSE Err
-UseP12 == \E w \in {"right"} \cup WrongPwd :
-            /\ use' = [pwd |-> w]
+\* which wrong-password variants exist for a password class
+Applicable(pw, w) == CASE w \in {"empty", "shorter", "char"} -> pw # "empty"
+                       [] w = "case" -> pw \in {"ascii", "long"}
+                       [] w = "badbyte" -> pw = "badutf8"                        \* another byte that is not UTF-8 either
+                       [] w = "lowbyte" -> pw \in {"utf8", "bmp_edge"}      \* every character replaced by its low byte
+                       [] OTHER -> TRUE
+UseP12 == \E w \in {"right"} \cup WrongPwd, api \in {"DecodeAll", "Decode", "ToPEM"} :
+            /\ (w # "right" => Applicable(obj.pw, w))
+            /\ (api = "Decode" => (obj.keykind = "rsa" /\ obj.certs = 1))      \* Decode: one certificate, parsed by crypto/x509
+            /\ use' = [pwd |-> w, api |-> api]
             /\ result' = Decode(obj, IF w = "right" THEN obj.pw ELSE "wrong:" \o w)
 Use == /\ pc = "use"
        /\ (CASE obj.t = "env" -> UseEnv [] obj.t = "signed" -> UseSigned [] obj.t = "p12" -> UseP12)
